@@ -29,7 +29,7 @@ def excluded(m):
 
 def run_part(args):
     family, seed, count, exhaustive, max_depth, part, parts = args
-    signal.signal(signal.SIGALRM, diff._on_alarm)
+    signal.signal(signal.SIGVTALRM, diff._on_alarm)
     res = diff.Result()
     n = 0
     ids = []
@@ -51,7 +51,7 @@ def main():
     if sys.argv[1] == 'replay':
         rp = json.load(open(sys.argv[2]))
         sc = rp.get('scenario', rp)
-        signal.signal(signal.SIGALRM, diff._on_alarm)
+        signal.signal(signal.SIGVTALRM, diff._on_alarm)
         res = diff.Result()
         found = False
         for case in gen.cases(sc['family'], sc['seed'], sc['count'], sc.get('exhaustive', False), sc.get('max_depth')):
